@@ -55,16 +55,16 @@ type interpreter struct {
 	goroutines         int32                  // atomically updated
 
 	// gosym
-	ex        *Explorer
-	sched     *scheduler
-	m         *Machine
-	mapOrder  int             // 0 insertion order, 1 decisions at listed sites, 2 decisions everywhere
-	mapSites  map[string]bool // function names (fn.String()) whose map ranges are order decisions
-	liftMemo  map[uintptr]value
-	ptrNames  map[*value]int
-	funcsSeen map[*ssa.Function]bool
-	natives   map[*value]any // lifted AST node -> native object (for native accessors)
-	harness   *harnessState
+	ex               *Explorer
+	sched            *scheduler
+	m                *Machine
+	mapOrder         int             // 0 insertion order, 1 decisions at listed sites, 2 decisions everywhere
+	mapSites         map[string]bool // function names (fn.String()) whose map ranges are order decisions
+	liftMemo         map[uintptr]value
+	ptrNames         map[*value]int
+	funcsSeen        map[*ssa.Function]bool
+	natives          map[*value]any // lifted AST node -> native object (for native accessors)
+	harness          *harnessState
 	depthIsViolation bool
 }
 
@@ -674,4 +674,3 @@ func doRecover(caller *frame) value {
 	}
 	return iface{}
 }
-
